@@ -369,17 +369,34 @@ def known_class(case, failure):
     empty = any(p == 0 for p in parts)
     if kind == "cum":
         op, skipna = case[6], case[7]
-        allnan_part = any(len(blk) > 0 and all(blk) for blk in _blocks(mask, parts))
-        if failure == "wrong-dtype" and form == "frame" and op in ("cumsum", "cumprod"):
+        blocks = _blocks(mask, parts)
+        k = len(parts)
+        minmax = op in ("cummin", "cummax")
+        series = form in ("series", "proj", "series_a")
+        if failure == "wrong-dtype" and form == "frame" and not minmax:
             return "mixed-frame"  # int column next to a float column comes back as float64
-        if empty:
-            return "empty-partition"
-        if form in ("frame1", "frame_a") and op in ("cummin", "cummax"):
+        if series:
+            if parts[0] == 0 and (minmax or not skipna):
+                return "series-leading-empty-partition"
+            if minmax and skipna and len(blocks[0]) > 0 and all(blocks[0]):
+                return "series-leading-allnan-partition"
+            if minmax and not skipna and any(mask):
+                first = min(i for i, blk in enumerate(blocks) if any(blk))
+                if 1 <= first < k - 1:
+                    return "series-skipna-false-nan-in-middle-partition"
+            return None
+        # DataFrame forms
+        if minmax and form in ("frame1", "frame_a"):
             return "single-column-frame"
-        if allnan_part and skipna:
-            return ("frame" if form in ("frame", "frame1") else "series") + "-allnan-partition"
-        if op in ("cummin", "cummax") and form in ("series", "proj") and not skipna and any(mask):
-            return "series-skipna-false-nan"
+        if form in ("frame1", "frame_a"):
+            if parts[0] == 0:
+                return "frame-leading-empty-partition"
+        elif minmax and any(p == 0 for p in parts[:-1]):
+            return "frame-empty-partition"  # an empty partition that is not the last partition
+        elif not minmax and any(parts[i] == 0 and any(parts[i + 1 :]) for i in range(k)):
+            return "frame-empty-partition"  # an empty partition followed by data
+        if skipna and any(len(blk) > 0 and all(blk) for blk in blocks[:-1]):
+            return "frame-allnan-partition"  # a non-last partition whose float column is entirely NaN
         return None
     if kind == "troll" and case[8]:
         return "center"  # centred time window
